@@ -69,8 +69,12 @@ def _sub(rng, pool, lo=0, hi=4, dup=True):
     return out
 
 
-def generate(rng, seed, run, tier):
+def generate(rng, seed, run, tier, xmode=False):
     cfg = _config(rng, tier)
+    if xmode:
+        cfg['simset'] = False
+        cfg['xmode'] = True
+        cfg['n_shared'] = rng.choice([0, 1, 2, 3])
     onames, pnames = _names(rng, cfg)
     n_slots = cfg['n_slots']
     shadow = [None] * n_slots   # light shadow state: the model itself
@@ -108,6 +112,17 @@ def generate(rng, seed, run, tier):
     while len(events) < cfg['n_events']:
         kind = rng.choices(kinds, wts)[0]
         live = [i for i, t in enumerate(shadow) if t is not None]
+        if cfg.get('xmode') and rng.random() < 0.12:
+            # error-provoking constructor calls whose messages list names
+            common = rng.sample(onames + pnames, min(len(set(onames + pnames)), rng.randint(1, 4)))
+            common = list(dict.fromkeys(common))
+            objs = common + [n for n in rng.sample(onames, min(2, len(onames))) if n not in common]
+            props = common[::-1] + [n for n in rng.sample(pnames, min(2, len(pnames))) if n not in common]
+            if rng.random() < 0.3:
+                objs = objs + objs[:1]
+            rng.shuffle(objs)
+            events.append(['x_ctx', objs, props])
+            continue
         if kind == 'd_new' or not live:
             ev = ['d_new', rng.randrange(n_slots), *triple()]
         elif kind == 'set_order':
@@ -201,7 +216,7 @@ def generate(rng, seed, run, tier):
 def _model_apply(models, ev):
     """Apply ``ev`` to the list of slot models; returns (ret, dst) or raises Rejected."""
     kind = ev[0]
-    if kind == 'set_order':
+    if kind in ('set_order', 'x_ctx'):
         return None
     if kind == 'd_new':
         _, s, objs, props, bools = ev
@@ -377,7 +392,11 @@ def execute(plan, rec):
     for index, ev in enumerate(plan['events']):
         rec.begin(index, ev)
         kind = ev[0]
-        rec.sched_step(kind, ev[1] if len(ev) > 1 else '')
+        rec.sched_step(kind, ev[1] if len(ev) > 1 and isinstance(ev[1], int) else '')
+        if kind == 'x_ctx':
+            out = call(Context, ev[1], ev[2], [tuple(False for _ in ev[2]) for _ in ev[1]])
+            rec.log(out.text())
+            continue
         if kind == 'set_order':
             if use_simset:
                 seams.SimSet.order_seed = ev[1]
@@ -483,7 +502,7 @@ def execute(plan, rec):
         elif kind == 'd_ctx_roundtrip':
             out = _ctx_roundtrip(rec, d, models[s], defs, models, Context, Definition)
             if out is None:
-                rec.log('invalid-context')
+                rec.log('invalid-context ' + call(lambda d=d: Context(*d)).text())
                 audit(s)
                 continue
             dsts = (ev[2],)
@@ -529,7 +548,7 @@ def execute(plan, rec):
             unchanged = after == before
             rec.check(f'{prop}.reject_unchanged' if derived else 'C13.reject_raises_unchanged',
                       unchanged, lambda: f'{ev!r}: rejected call changed state {before!r} -> {after!r}')
-            rec.log(out.text(with_message=False))
+            rec.log(out.text(with_message=True))
             audit(s, rejected=True)
             continue
 
